@@ -1345,7 +1345,7 @@ class ProbabilisticTensorDictSequential(TensorDictSequential):
 
         if tensordict_out is not None:
             result = tensordict_out
-            result.update(tensordict_exec, keys_to_update=self.out_keys)
+            result.update(tensordict_exec.select(*self.out_keys, strict=False))
         else:
             result = tensordict_exec
             if self._select_before_return:
@@ -1360,7 +1360,7 @@ class ProbabilisticTensorDictSequential(TensorDictSequential):
                     ]
                 else:
                     keys = list(set(self.out_keys + list(tensordict.keys(True, True))))
-                return tensordict.update(result, keys_to_update=keys)
+                return tensordict.update(result.select(*keys, strict=False))
         return result
 
 
